@@ -67,6 +67,8 @@ type Engine struct {
 	intrCache sync.Map // *ssa.Function -> intrinsicFn or nil marker
 	harnessFn sync.Map
 	hcfg      map[string]*Config
+	initBlocks map[*ssa.BasicBlock][]ssa.Instruction
+	sampleSeen int
 
 	runtimeErrorType types.Type
 	errorStringPtr   types.Type
@@ -220,10 +222,63 @@ func newEngine(cfg Config, scratch string, patterns []string) (*Engine, error) {
 			}
 		}
 	})
+	e.prepareInitSkips()
 	e.res = Results{PerHarness: map[string]*HarnessStats{}, FuncsRun: map[string]bool{},
 		Unsupported: map[string]int{}, Solver: map[string]*solverStats{}}
 	fmt.Fprintf(os.Stderr, "gosym: loaded and built SSA in %.1fs (%d redirects)\n", time.Since(t0).Seconds(), len(e.redirects))
 	return e, nil
+}
+
+// prepareInitSkips precomputes, for the package initialisers of in-module packages,
+// instruction lists without the element stores of large array literals (the
+// generated protobuf raw descriptors: thousands of byte stores per path that
+// nothing modelled ever reads). The arrays are still allocated, zero-filled.
+func (e *Engine) prepareInitSkips() {
+	e.initBlocks = map[*ssa.BasicBlock][]ssa.Instruction{}
+	for _, pkg := range e.prog.AllPackages() {
+		if !strings.HasPrefix(pkg.Pkg.Path(), modPath) {
+			continue
+		}
+		fn := pkg.Func("init")
+		if fn == nil {
+			continue
+		}
+		big := map[ssa.Value]bool{}
+		for _, b := range fn.Blocks {
+			for _, in := range b.Instrs {
+				if a, ok := in.(*ssa.Alloc); ok && a.Heap {
+					if at, ok := deref(a.Type()).Underlying().(*types.Array); ok && at.Len() > 64 {
+						if bt, ok := at.Elem().Underlying().(*types.Basic); ok && bt.Kind() == types.Uint8 {
+							big[a] = true
+						}
+					}
+				}
+			}
+		}
+		if len(big) == 0 {
+			continue
+		}
+		skipAddr := map[ssa.Value]bool{}
+		for _, b := range fn.Blocks {
+			var keep []ssa.Instruction
+			changed := false
+			for _, in := range b.Instrs {
+				if ia, ok := in.(*ssa.IndexAddr); ok && big[ia.X] {
+					skipAddr[ia] = true
+					changed = true
+					continue
+				}
+				if st, ok := in.(*ssa.Store); ok && skipAddr[st.Addr] {
+					changed = true
+					continue
+				}
+				keep = append(keep, in)
+			}
+			if changed {
+				e.initBlocks[b] = keep
+			}
+		}
+	}
 }
 
 func (e *Engine) findFunc(pkgPath, name string) *ssa.Function {
@@ -359,10 +414,17 @@ func (e *Engine) cfgFor(h string) *Config {
 	return &e.cfg
 }
 
+// sampleWanted: completed paths are sampled for translator validation (a model of
+// the path condition is fetched and the observation log evaluated under it): the
+// first 64 paths, then every 16th, up to 1024 samples.
 func (e *Engine) sampleWanted(p *Path) bool {
 	e.mu.Lock()
 	defer e.mu.Unlock()
-	return len(e.res.ObsSamples) < 4096
+	e.sampleSeen++
+	if len(e.res.ObsSamples) >= 1024 {
+		return false
+	}
+	return e.sampleSeen <= 64 || e.sampleSeen%16 == 0
 }
 
 func (e *Engine) collect(p *Path) {
@@ -405,7 +467,7 @@ func (e *Engine) collect(p *Path) {
 	for fn := range p.funcsRun {
 		e.res.FuncsRun[fn.String()] = true
 	}
-	if p.status == stComplete && len(e.res.ObsSamples) < 4096 && p.sample != nil {
+	if p.status == stComplete && p.sample != nil {
 		e.res.ObsSamples = append(e.res.ObsSamples, *p.sample)
 	}
 }
